@@ -12,10 +12,12 @@ for d in sorted(glob.glob(os.path.join(ROOT, "seeded", "*"))):
     keys = "; ".join(k.replace("violation key ", "").rsplit(":", 1)[0] for k in m.get("check", {}).get("keys", [])[:3])
     first = m.get("first_result", "")
     rows.append(f"| `{name}` | {m['property']} | {m.get('summary', '').replace('|', '/')[:230]} | {m.get('needs', '').replace('|', '/')[:200]} | "
-                f"{'caught' if m.get('detected') else 'MISSED'} ({m.get('check', {}).get('tier', '')}): {keys[:160]} | {first} |")
+                + (f"no longer a violation: {m['superseded']} | {first} |" if m.get("superseded") else
+                   f"{'caught' if m.get('detected') else 'MISSED'} ({m.get('check', {}).get('tier', '')}): {keys[:160]} | {first} |"))
 table = ("### 9.6 Seeded changes (sub-agents saw only the property text and a scratch worktree)\n\n"
          "Every change below was confirmed independently (`tools/confirm_seed.py`): the pinned suite still passes with it (stable_pass list\n"
-         "unchanged), the sub-agent's demonstration exits 1 with it and 0 without it. `check` = result of `./check <ID> --tier quick` against the\n"
+         "unchanged), the sub-agent's demonstration exits 1 with it and 0 without it (seeds marked 'no longer a violation' were valid when they\n"
+         "arrived and were neutralised by a later `fix:` commit in the library: their demonstration exits 0 on the repaired tree, and so does the check). `check` = result of `./check <ID> --tier quick` against the\n"
          "changed tree *after* the strengthening described in the last column (\"first result\" = what the check did when the change first arrived).\n\n"
          "| seed | property | change | needs | check now | first result / strengthening |\n|---|---|---|---|---|---|\n" + "\n".join(rows) + "\n\n")
 p = os.path.join(ROOT, "DESIGN.md")
